@@ -22,7 +22,7 @@ def OutB : Prop :=
 def InB : Prop :=
   ∀ (s : Interp.IState) (d : Interp.Done) a s', IInv s →
     (Interp.step s = .pure d ∨ ∃ op k resp, Interp.step s = .host op k ∧ d = k resp) → d = .action a s' →
-    dataLen a ≤ ISZ
+    dataLen a ≤ ISZ ∧ ∀ i, a ≠ .eofCreate i
 
 theorem makeFrame_out (pco : PcOut) {cfg : Cfg} {w w' : World} {a : Interp.Action} {mem fr}
     (h : makeFrame journalOps cfg w a mem = .ok (fr, w')) (hs : StoreOk w) (hd : dataLen a ≤ ISZ) :
